@@ -463,8 +463,11 @@ class Ledger:
                 reps = self.reports.get((n, c, a), [])
                 fin = sum(1 for l, t, dy, inc in reps if l in (b"K", b"D") or (l == b"Z" and dy is not False))
                 if fin < mult:
-                    res.v("C03", "message %d left the queue but recipient %r (x%d) got only %d final reports: dropped (reports %r)" % (
-                        n, a, mult, fin, [(l, dy) for l, t, dy, inc in reps]))
+                    msg = "message %d left the queue but recipient %r (x%d) got only %d final reports: dropped (reports %r)" % (
+                        n, a, mult, fin, [(l, dy) for l, t, dy, inc in reps])
+                    res.v("C03", msg)
+                    if any(l == b"Z" and dy is False for l, t, dy, inc in reps):
+                        res.v("C15", "a temporary failure ended the recipient although the message is younger than queuelifetime: " + msg)
         if m["sender"] == b"#@[]":
             self.res.classes.add("triple_bounce_discard") if self.bounces_owed.get(n) else None
             return
